@@ -575,6 +575,32 @@ func (p *Prog) PathCond(fn *ssa.Function, from *ssa.BasicBlock, site ssa.Instruc
 				if onPath[s] {
 					continue
 				}
+				// a branch on the boolean result of a helper that is analysed as part of this function: the disjunction,
+				// over the helper's returns, of (the way to that return) and (what it returns)
+				if hd, ok := p.helperBoolDNF(t.Cond, i == 0, keep, 0); ok {
+					for _, hc := range hd {
+						saved := Conj{}
+						for k, v := range c {
+							saved[k] = v
+						}
+						consistent := true
+						for f, set := range hc {
+							if !c.and(Lit{Form: f, Set: set}) {
+								consistent = false
+							}
+						}
+						if consistent {
+							walk(s, c)
+						}
+						for k := range c {
+							delete(c, k)
+						}
+						for k, v := range saved {
+							c[k] = v
+						}
+					}
+					continue
+				}
 				lit := p.CondLit(t.Cond, i == 0)
 				// phi-joined short-circuit conditions are resolved on the fly
 				if ph, ok := stripNot(t.Cond).(*ssa.Phi); ok && isBool(ph.Type()) {
@@ -1199,4 +1225,92 @@ func (p *Prog) ReachingStore(v ssa.Value) (ssa.Value, bool) {
 		return reach[0].Val, true
 	}
 	return nil, false
+}
+
+// helperBoolDNF: cond (possibly negated) is the boolean result of a transparent helper with non-constant returns; the
+// condition under which it has the value want, as a DNF over the kept forms.
+func (p *Prog) helperBoolDNF(cond ssa.Value, want bool, keep func(string) bool, depth int) (DNF, bool) {
+	if depth > 3 {
+		return nil, false
+	}
+	for {
+		if u, ok := cond.(*ssa.UnOp); ok && u.Op == token.NOT {
+			cond, want = u.X, !want
+			continue
+		}
+		break
+	}
+	var call *ssa.Call
+	idx := 0
+	switch x := cond.(type) {
+	case *ssa.Call:
+		call = x
+	case *ssa.Extract:
+		call, _ = x.Tuple.(*ssa.Call)
+		idx = x.Index
+	}
+	if call == nil {
+		return nil, false
+	}
+	k := TransparentCallee(call)
+	if k == nil {
+		return nil, false
+	}
+	if _, _, isAlias := p.boolAlias(cond); isAlias {
+		return nil, false // all returns constant: CondLit resolves it to the deciding branch
+	}
+	var out DNF
+	for _, r := range transparentReturns(k) {
+		if idx >= len(r.Results) || !isBool(r.Results[idx].Type()) {
+			return nil, false
+		}
+		pc := p.PathCond(k, nil, r, keep)
+		rv := r.Results[idx]
+		// `return a && b`: a phi in the return's block - one disjunct per incoming edge
+		if ph, isPh := rv.(*ssa.Phi); isPh && ph.Block() == r.Block() {
+			for i, e := range ph.Edges {
+				ec := p.EdgeCond(k, nil, ph.Block().Preds[i], ph.Block(), keep)
+				if c, isC := e.(*ssa.Const); isC && c.Value != nil && c.Value.Kind() == constant.Bool {
+					if constant.BoolVal(c.Value) == want {
+						out = append(out, ec...)
+					}
+					continue
+				}
+				lit := p.CondLit(e, want)
+				for _, cj := range ec {
+					cp := Conj{}
+					for f, v := range cj {
+						cp[f] = v
+					}
+					if keep != nil && !keep(lit.Form) {
+						out = append(out, cp)
+					} else if cp.and(lit) {
+						out = append(out, cp)
+					}
+				}
+			}
+			continue
+		}
+		if c, isC := rv.(*ssa.Const); isC && c.Value != nil && c.Value.Kind() == constant.Bool {
+			if constant.BoolVal(c.Value) == want {
+				out = append(out, pc...)
+			}
+			continue
+		}
+		lit := p.CondLit(rv, want)
+		for _, cj := range pc {
+			cp := Conj{}
+			for f, v := range cj {
+				cp[f] = v
+			}
+			if keep != nil && !keep(lit.Form) {
+				out = append(out, cp)
+				continue
+			}
+			if cp.and(lit) {
+				out = append(out, cp)
+			}
+		}
+	}
+	return out, true
 }
